@@ -3,6 +3,7 @@ package c07
 import (
 	"bufio"
 	"bytes"
+	"context"
 	"fmt"
 	"io"
 	"net/http"
@@ -374,6 +375,12 @@ func newSandbox(t testing.TB) *sandbox {
 	// what a directory listing or an index page of the directory above the root would expose
 	must(os.WriteFile(filepath.Join(base, "index.html"), []byte(canary+":index"), 0o644))
 	must(os.WriteFile(filepath.Join(base, canary+"-NAME.txt"), []byte("x"), 0o644))
+	// virtual hosts: what belongs to another host, or to no host at all, inside the root
+	must(os.MkdirAll(filepath.Join(sb.root, "h"), 0o755))
+	must(os.MkdirAll(filepath.Join(sb.root, "other"), 0o755))
+	must(os.WriteFile(filepath.Join(sb.root, "h", "own.txt"), []byte("own file of host h"), 0o644))
+	must(os.WriteFile(filepath.Join(sb.root, "other", "secret.txt"), []byte(vhostMark+":other"), 0o644))
+	must(os.WriteFile(filepath.Join(sb.root, "toplevel.txt"), []byte(vhostMark+":top"), 0o644))
 	sb.srv = sconn.NewServer(func(h *server.Hertz) {
 		h.StaticFS("/", &app.FS{Root: sb.root})
 	})
@@ -394,12 +401,20 @@ func (sb *sandbox) checkVHost(host, target string) (status int, msg string) {
 	if bytes.Contains(res.Output, []byte(canary)) {
 		return 0, fmt.Sprintf("response exposes content or names from outside the root: %.300q", res.Output)
 	}
+	// The target is decoded and resolved once, then prefixed with the host: for the plain host "h"
+	// everything that is served lies under <root>/h/. A file of another host, or of none, can only
+	// come out if the prefixed path is decoded and resolved a second time.
+	if host == "h" && bytes.Contains(res.Output, []byte(vhostMark)) {
+		return 0, fmt.Sprintf("Host h was served a file from outside its own directory (the rewritten path was decoded a second time): %.300q", res.Output)
+	}
 	resp, err := http.ReadResponse(bufio.NewReader(bytes.NewReader(res.Output)), &http.Request{Method: "GET"})
 	if err != nil {
 		return 0, fmt.Sprintf("unreadable response %q: %v", res.Output, err)
 	}
 	return resp.StatusCode, ""
 }
+
+const vhostMark = "VHOST-FOREIGN-FILE"
 
 func TestC07VHost(t *testing.T) {
 	rec := ev.New("fs-vhost")
@@ -417,7 +432,17 @@ func TestC07VHost(t *testing.T) {
 			targets = append(targets, "/"+a+b, "/"+a+"/"+b)
 		}
 	}
-	targets = append(targets, "/", "/x/..", "/a/../..", "/%2e%2e", "/%2e%2e/", "/a/%2e%2e/%2e%2e/")
+	targets = append(targets, "/", "/x/..", "/a/../..", "/%2e%2e", "/%2e%2e/", "/a/%2e%2e/%2e%2e/", "/own.txt")
+	// doubly encoded dot segments and separators in front of files of another host / of no host
+	for _, up := range []string{"%252e%252e", "%252E%252E", ".%252e", "%252e.", "%252e%252e%252f", "..%252f", "%252e%252e%255c", "a/%252e%252e/%252e%252e"} {
+		for _, file := range []string{"toplevel.txt", "other/secret.txt", "other%252fsecret.txt"} {
+			sep := "/"
+			if strings.HasSuffix(up, "f") || strings.HasSuffix(up, "c") {
+				sep = ""
+			}
+			targets = append(targets, "/"+up+sep+file)
+		}
+	}
 	for _, host := range hosts {
 		for _, target := range targets {
 			global++
@@ -652,4 +677,68 @@ func TestC07Replay(t *testing.T) {
 		ev.Fail(prop, "replay", map[string]string{"target": in.Target}, msg)
 		t.Fatalf("%q: %s", in.Target, msg)
 	}
+}
+
+// TestC07FileFromFS: RequestContext.FileFromFS serves a file by putting another path into the
+// request's URI for the duration of the call. Afterwards the handler, and every middleware behind
+// ctx.Next, must see the path the request was routed on - the target decoded once - not a second
+// decoding of it.
+func TestC07FileFromFS(t *testing.T) {
+	rec := ev.New("file-from-fs")
+	sb := newSandbox(t)
+	defer sb.close()
+	fs := &app.FS{Root: sb.root}
+	s := sconn.NewServer(func(h *server.Hertz) {
+		h.GET("/dl/*fp", func(c context.Context, ctx *app.RequestContext) {
+			before := string(ctx.Path())
+			ctx.FileFromFS("/h/own.txt", fs)
+			ctx.Response.Header.Set("X-Path-Before", fmt.Sprintf("%x", before))
+			ctx.Response.Header.Set("X-Path-After", fmt.Sprintf("%x", string(ctx.Path())))
+		})
+	})
+	defer s.Close()
+	var targets []string
+	for _, a := range tokens {
+		targets = append(targets, "/dl/"+a)
+		for _, b := range tokens {
+			targets = append(targets, "/dl/"+a+b, "/dl/"+a+"/"+b)
+		}
+	}
+	targets = append(targets, "/dl/%252e%252e/admin", "/dl/%2561.txt", "/dl/a%2520b", "/dl/%25", "/dl/%252f")
+	var evals, nontriv int64
+	fails := 0
+	for _, target := range targets {
+		if !requestable(target) {
+			continue
+		}
+		res := s.Serve(sconn.New([][]byte{[]byte("GET " + target + " HTTP/1.1\r\nHost: h\r\nConnection: close\r\n\r\n")}, sconn.EOF))
+		evals++
+		if strings.Contains(target, "%25") {
+			nontriv++
+		}
+		msg := ""
+		if res.Panic != nil {
+			msg = fmt.Sprintf("panic: %v", res.Panic)
+		} else if resp, err := http.ReadResponse(bufio.NewReader(bytes.NewReader(res.Output)), &http.Request{Method: "GET"}); err != nil {
+			msg = fmt.Sprintf("unreadable response: %v", err)
+		} else if resp.StatusCode == 200 || resp.Header.Get("X-Path-Before") != "" {
+			b, a := resp.Header.Get("X-Path-Before"), resp.Header.Get("X-Path-After")
+			if b != a {
+				var bs, as []byte
+				fmt.Sscanf(b, "%x", &bs)
+				fmt.Sscanf(a, "%x", &as)
+				msg = fmt.Sprintf("the request path is %q before ctx.FileFromFS and %q after it", bs, as)
+			}
+		}
+		if msg != "" {
+			fails++
+			ev.Fail(prop, "file-from-fs", map[string]string{"target": target}, msg)
+			t.Errorf("target %q: %s", target, msg)
+			if fails >= 5 {
+				break
+			}
+		}
+	}
+	rec.Exact(evals, nontriv)
+	rec.Exhaustive("all targets of one or two tokens under a catch-all route whose handler calls ctx.FileFromFS, plus doubly encoded ones")
 }
